@@ -175,7 +175,6 @@ theorem runStep_ite (a b) (c : Prop) [Decidable c] (x y : Step) :
 macro "key_step" : tactic =>
   `(tactic| (rw [runStep_ite]; refine ite_congr rfl (fun _ => ?_) (fun _ => ?_)))
 
-set_option maxHeartbeats 1000000 in
 theorem parseLoop_succ (env : CharEnv) (L : Lexicon) (B : Builtins) (pattern : Str) (fuel flags : Nat) (s : LS) :
     parseLoop env L B pattern (fuel + 1) flags s =
       runStep (fun p => parseSelectors env L B p fuel) (parseLoop env L B pattern fuel flags)
